@@ -122,6 +122,16 @@ pub fn ifaces() -> Vec<Iface> {
         Iface { name: "GenericHash object keyed", model: "Lazy128", heavy: false,
             make: |c, _| Box::new(GhObj::<32, 32>(dryoc::generichash::GenericHash::<32, 32>::new(Some(&c.key32)).unwrap())),
             oneshot: |c, m| dryoc::generichash::GenericHash::<32, 32>::hash_to_vec(&m.to_vec(), Some(&c.key32)).unwrap() },
+        // key length and output length differ (the digest length parameter must be the OUTPUT length)
+        Iface { name: "GenericHash<32,64> object keyed", model: "Lazy128", heavy: true,
+            make: |c, _| Box::new(GhObj::<32, 64>(dryoc::generichash::GenericHash::<32, 64>::new(Some(&c.key32)).unwrap())),
+            oneshot: |c, m| { let mut o = vec![0u8; 64]; cg::crypto_generichash(&mut o, m, Some(&c.key32)).unwrap(); o } },
+        Iface { name: "GenericHash<64,16> object", model: "Lazy0", heavy: true,
+            make: |_, _| Box::new(GhObj::<64, 16>(dryoc::generichash::GenericHash::<64, 16>::new::<[u8; 64]>(None).unwrap())),
+            oneshot: |_, m| { let mut o = vec![0u8; 16]; cg::crypto_generichash(&mut o, m, None).unwrap(); o } },
+        Iface { name: "GenericHash::new_with_defaults object keyed", model: "Lazy128", heavy: true,
+            make: |c, _| Box::new(GhObj::<32, 32>(dryoc::generichash::GenericHash::new_with_defaults(Some(&c.key32)).unwrap())),
+            oneshot: |c, m| { let mut o = vec![0u8; 32]; cg::crypto_generichash(&mut o, m, Some(&c.key32)).unwrap(); o } },
         Iface { name: "onetimeauth classic", model: "Eager", heavy: false,
             make: |c, _| Box::new(OtaClassic(co::crypto_onetimeauth_init(&c.key32))),
             oneshot: |c, m| { let mut o = [0u8; 16]; co::crypto_onetimeauth(&mut o, m, &c.key32); o.to_vec() } },
